@@ -31,6 +31,8 @@ struct MeshOpts {
 	bool alwaysUvs = true;
 	float coordRange = 512.0f;
 	bool allowDegenerate = false; // keep triangles with a repeated index (in range, so structurally valid)
+	// every fifth mesh or so (decided by the triangle count, no tape read) lists one of its triangles twice
+	bool duplicateTriangleSometimes = false;
 };
 
 inline uint64_t triKey(const nifly::Triangle& t) {
@@ -119,6 +121,8 @@ inline Mesh genMesh(Tape& t, const MeshOpts& o) {
 		for (uint32_t v = 0; v < nv; v++)
 			if (!used[v])
 				m.hasUnusedVerts = true;
+		if (o.duplicateTriangleSometimes && m.tris.size() % 5 == 3)
+			m.tris.push_back(m.tris[m.tris.size() / 2]);
 	}
 	else
 		m.hasUnusedVerts = true;
